@@ -258,6 +258,13 @@ func (n typeNode) get(f *ast.Field, vars map[string]interface{}) (interface{}, e
 		}
 		return strOrNil(def.Description), nil
 	case "specifiedByURL":
+		if !wrapper {
+			if d := def.Directives.ForName("specifiedBy"); d != nil {
+				if u := d.Arguments.ForName("url"); u != nil {
+					return u.Value.Raw, nil
+				}
+			}
+		}
 		return nil, nil
 	case "ofType":
 		switch {
